@@ -75,13 +75,17 @@ func init() {
 		Units: []string{
 			modPath + ".(*M).Bytes", modPath + ".(*M).String",
 			modPath + ".Decimal", modPath + ".Mediatype",
+			// no hang in the streaming wrappers: each goroutine body closes its end of the pipe on every path (the
+			// other side would block for ever otherwise) and signals the wait group exactly once
+			modPath + ".(*M).Reader$go1", modPath + ".(*M).Writer$go1", modPath + ".(*responseWriter).Write$go1",
+			modPath + ".(*writer).Close",
 		},
 		Custom: []string{"sweep"},
 		Notes: []string{
 			"input handed back on error: (*M).Bytes returns the caller's slice header AND its bytes are unchanged; (*M).String returns the caller's string. The byte clause rests on A-inplace (assumed contract of every Minifier: the reader's buffer is written only when it has spare capacity - tdewolff/parse NewInput), stated in /repo/zz_contracts_verif.go",
 			"no panic: all safety obligations (index, slice, nil, division, type assertion, overflow) of every unit under full contract in this framework, plus the zero-annotation SWEEP over all functions of the seven packages and the CLI: only the obligations that discharge on the unchanged tree (registry/C10-sweep.json) are claimed",
 			"A-recv: in sweep mode methods are assumed to be called on non-nil pointer receivers",
-			"no hang: termination variants are discharged for the loops of Decimal; bounded harnesses carry a step budget (unwind check). Time proportional to input size and memory growth: not decided",
+			"no hang: termination variants are discharged for the loops of Decimal; the termination sweep registers a variant for 76 further loops (ghost token measure, A-fuel); the goroutine bodies of Reader/Writer/ResponseWriter close their pipe end and signal the wait group on every path, Close waits once; bounded harnesses carry a step budget (unwind check). Time proportional to input size and memory growth: not decided",
 			"arbitrary byte strings through the dependency's lexers/parsers: not decided (A-dep)",
 		},
 	})
@@ -273,8 +277,8 @@ func init() {
 			modPath + "/css.minifyColor", modPath + "/css.(Token).IsZero", modPath + "/css.minifyLengthPercentage",
 			modPath + "/css.minifyNumberPercentage", modPath + "/css.(*cssMinifier).minifyDimension",
 		},
-		Custom:  []string{"partial"},
-		Partial: []string{modPath + "/css.(*cssMinifier).minifyProperty", modPath + "/css.(*cssMinifier).minifyGrammar"},
+		Custom:  []string{"partial", "tables"},
+		Partial: []string{modPath + "/css.(*cssMinifier).minifyProperty", modPath + "/css.(*cssMinifier).minifyGrammar", modPath + "/css.(*cssMinifier).minifySelectors"},
 		Notes: []string{
 			"value-rewriting kernels of the real css package under full contract (all inputs, byte-level postconditions whose meaning is stated next to them): minifyColor on hash colours (alpha pair dropped only when both nibbles are f, '#0000' only when both are 0, 3/4-digit form only when both nibbles of every channel are equal, otherwise the lower-cased input; name lookups are the C17 table lemmas); minifyNumberPercentage (d0% -> .d, .0d -> d%, .00x -> .x%, anything else unchanged); minifyLengthPercentage (only a value starting with 0 loses its unit and becomes that 0); Token.IsZero; minifyDimension (split at the last non-letter, unit lower-cased, exactly the number bytes handed once to Number - Decimal under KeepCSS2 - with the configured precision, result = that number followed by the unit, proved through the overlapping append)",
 			"site assertions in the real minifyProperty (partial contract): the flex rewrites that inspect only the first byte of <flex-grow>/<flex-shrink> are reached only when those numbers are single characters",
@@ -291,7 +295,7 @@ func init() {
 			modPath + "/svg.(*TokenBuffer).read", modPath + "/svg.NewTokenBuffer", modPath + "/svg.(*TokenBuffer).Peek", modPath + "/svg.(*TokenBuffer).Shift",
 			modPath + "/svg.(*PathDataState).copyNumber", modPath + "/svg.(*PathDataState).copyFlag",
 		},
-		Custom: []string{"partial"},
+		Custom: []string{"partial", "tables"},
 		Partial: []string{
 			modPath + "/svg.(*PathData).copyInstruction", modPath + "/svg.(*PathData).shortenCurPosInstruction",
 			modPath + "/svg.(*PathData).shortenAltPosInstruction", modPath + "/svg.(*Minifier).Minify",
